@@ -218,7 +218,8 @@ func c11Run(ctx *Ctx, c c11Case) {
 
 	// 1. the parser reproduces the generated tree from every rendering
 	want := shapeOfTree(t)
-	for _, r := range []struct{ name, src string }{{"min", c.Min}, {"full", c.Full}, {"decorated", c.Deco}} {
+	termPar := t.withLeafParens().min()
+	for _, r := range []struct{ name, src string }{{"min", c.Min}, {"full", c.Full}, {"decorated", c.Deco}, {"term-parenthesised", termPar}} {
 		shape, err, pan := c11Parse(r.src)
 		if pan != "" {
 			ctx.Fail("parse panics ("+r.name+" rendering)", r.src+": "+pan)
@@ -235,7 +236,7 @@ func c11Run(ctx *Ctx, c c11Case) {
 	}
 	// 2. all renderings compile alike and evaluate alike
 	oMin := c11Outcome(outMin)
-	for _, r := range []struct{ name, src string }{{"full", c.Full}, {"decorated", c.Deco}} {
+	for _, r := range []struct{ name, src string }{{"full", c.Full}, {"decorated", c.Deco}, {"term-parenthesised", termPar}} {
 		o := evalWith(r.src, input, vars)
 		got := c11Outcome(o)
 		if (got == "compile-error") != (oMin == "compile-error") {
